@@ -267,6 +267,25 @@ func signOp(kind string) OpFunc {
 				fail("signed transaction differs from the one assembled from the reference (RFC 6979) signature: want %s", truncate(hx(exp.Bytes()), 400))
 			}
 		}
+		// ---- the same object edited in place (a fee bump, another sequence) and signed again: the result is that of
+		// signing a freshly parsed copy of the edited transaction
+		if enc != nil {
+			if len(t.Outputs) > 0 {
+				t.Outputs[0].Value ^= 0x10
+				t.Outputs[len(t.Outputs)-1].Script = append([]byte{0x51}, t.Outputs[len(t.Outputs)-1].Script...)
+			}
+			t.Inputs[idx].Sequence ^= 1
+			t.Inputs[0].PrevOut.Index ^= 1
+			if mid := t.Bytes(); mid != nil {
+				if fresh, perr := tx.FromBytes(mid); perr == nil {
+					e1 := c04Sign(kind, t, idx, priv, ht, value)
+					e2 := c04Sign(kind, fresh, idx, priv, ht, value)
+					if (e1 == nil) != (e2 == nil) || (e1 == nil && !bytes.Equal(t.Bytes(), fresh.Bytes())) {
+						fail("signing again after editing the transaction in place differs from signing a freshly parsed copy of the edited transaction")
+					}
+				}
+			}
+		}
 		return "ok " + hx(enc), direct
 	}
 }
